@@ -6,6 +6,6 @@ CHECKS = {
     'C10': frontprops.check_C10, 'C11': frontprops.check_C11,
     'C02': frontprops.check_C02, 'C04': frontprops.check_C04,
     'C09': macroprops.check_C09, 'C12': macroprops.check_C12, 'C13': macroprops.check_C13,
-    'C03': semprops.check_C03, 'C16': semprops.check_C16, 'C01': (lambda ctx: semprops.check_C01(ctx, thms=[])), 'C07': semprops.check_C07,
+    'C03': semprops.check_C03, 'C16': semprops.check_C16, 'C01': semprops.check_C01, 'C07': semprops.check_C07,
     'C18': c18.check_C18,
 }
